@@ -217,32 +217,42 @@ func checkC14(c *Ctx) {
 		c.R.Fn(c.fname(run))
 		n := 0
 		bad := ""
-		for _, b := range run.Blocks {
-			for _, in := range b.Instrs {
-				st, ok := in.(*ssa.Store)
-				if !ok {
-					continue
+		reachRun := c.P.Reach([]*ssa.Function{run}, func(from *ssa.Function, cl *core.Call, to *ssa.Function) bool {
+			if cl != nil {
+				if _, isGo := cl.Instr.(*ssa.Go); isGo || cl.Invoke {
+					return false
 				}
-				if _, ok := st.Addr.(*ssa.IndexAddr); !ok {
-					continue
-				}
-				if bt, ok := st.Val.Type().Underlying().(*types.Basic); !ok || bt.Kind() != types.String || !stringsContains(core.Term(st.Val), ".SessionID") {
-					continue
-				}
-				n++
-				guarded := false
-				for _, cc := range controllingConds(b, nil) {
-					bo, ok := cc.cond.(*ssa.BinOp)
-					if !ok || bo.Op != token.EQL || !cc.pol {
+			}
+			return to.Package() == run.Package() && to.Parent() == nil
+		})
+		for _, rf := range sortedFuncs(reachRun) {
+			for _, b := range rf.Blocks {
+				for _, in := range b.Instrs {
+					st, ok := in.(*ssa.Store)
+					if !ok {
 						continue
 					}
-					lt, rt := core.Term(bo.X), core.Term(bo.Y)
-					if (stringsContains(lt, ".Peer") && stringsContains(rt, ".peerID")) || (stringsContains(rt, ".Peer") && stringsContains(lt, ".peerID")) {
-						guarded = true
+					if _, ok := st.Addr.(*ssa.IndexAddr); !ok {
+						continue
 					}
-				}
-				if !guarded {
-					bad = "a recipient is recorded at " + c.whereI(st) + " without checking that its subscription is hosted by this node: sessions of other nodes would be looked up (and a message delivered twice cluster-wide if ids collide)"
+					if bt, ok := st.Val.Type().Underlying().(*types.Basic); !ok || bt.Kind() != types.String || !stringsContains(core.Term(st.Val), ".SessionID") {
+						continue
+					}
+					n++
+					guarded := false
+					for _, cc := range controllingConds(b, nil) {
+						bo, ok := cc.cond.(*ssa.BinOp)
+						if !ok || bo.Op != token.EQL || !cc.pol {
+							continue
+						}
+						lt, rt := core.Term(bo.X), core.Term(bo.Y)
+						if (stringsContains(lt, ".Peer") && stringsContains(rt, ".peerID")) || (stringsContains(rt, ".Peer") && stringsContains(lt, ".peerID")) {
+							guarded = true
+						}
+					}
+					if !guarded {
+						bad = "a recipient is recorded at " + c.whereI(st) + " without checking that its subscription is hosted by this node: sessions of other nodes would be looked up (and a message delivered twice cluster-wide if ids collide)"
+					}
 				}
 			}
 		}
